@@ -25,10 +25,39 @@ type c19Edit struct {
 	NewName  string   `json:"new,omitempty"`
 	Calls    bool     `json:"remove_calls,omitempty"` // removeUnused: RemoveCalls
 	Top      []string `json:"top_calls,omitempty"`    // removeUnused: TopCalls
+	// Op "multi": several operations in ONE Refactor call (`mro edit` with several
+	// options).  Refactor applies them by category - renames of callables, of
+	// inputs, of outputs, removals of inputs, of outputs, then the remove-unused
+	// loop - so Steps is kept in that order; later steps use the names that the
+	// earlier ones produced.
+	Steps []c19Edit `json:"steps,omitempty"`
+}
+
+// c19Cat is the position of an operation in the order Refactor applies them.
+func c19Cat(op string) int {
+	switch op {
+	case "renameCallable":
+		return 0
+	case "renameInput":
+		return 1
+	case "renameOutput":
+		return 2
+	case "removeInput":
+		return 3
+	case "removeOutput":
+		return 4
+	}
+	return 5
 }
 
 func (e c19Edit) String() string {
 	switch e.Op {
+	case "multi":
+		parts := make([]string, len(e.Steps))
+		for i, st := range e.Steps {
+			parts[i] = st.String()
+		}
+		return strings.Join(parts, " ; ")
 	case "renameCallable":
 		return fmt.Sprintf("rename %s=%s", e.Callable, e.NewName)
 	case "renameInput", "renameOutput":
@@ -41,6 +70,26 @@ func (e c19Edit) String() string {
 
 func (e c19Edit) config() refactoring.RefactorConfig {
 	var conf refactoring.RefactorConfig
+	if e.Op == "multi" {
+		for _, st := range e.Steps {
+			c := st.config()
+			conf.Rename = append(conf.Rename, c.Rename...)
+			conf.RenameInParam = append(conf.RenameInParam, c.RenameInParam...)
+			conf.RenameOutParam = append(conf.RenameOutParam, c.RenameOutParam...)
+			conf.RemoveInParams = append(conf.RemoveInParams, c.RemoveInParams...)
+			conf.RemoveOutParams = append(conf.RemoveOutParams, c.RemoveOutParams...)
+			conf.RemoveCalls = conf.RemoveCalls || c.RemoveCalls
+			if c.TopCalls != nil {
+				if conf.TopCalls == nil {
+					conf.TopCalls = refactoring.StringSet{}
+				}
+				for t := range c.TopCalls {
+					conf.TopCalls.Add(t)
+				}
+			}
+		}
+		return conf
+	}
 	cp := refactoring.CallableParam{Callable: e.Callable, Param: e.Param}
 	switch e.Op {
 	case "renameCallable":
@@ -96,7 +145,7 @@ func c19Compile(src, path string) (res *c19Compiled, err error) {
 
 // c19Apply runs one edit the way `mro edit` does.  Returns the formatted new
 // source, the uncompiled edited AST, and the number of edit sites.
-func c19Apply(src, path string, e c19Edit) (out string, edited *syntax.Ast, count int, err error) {
+func c19Apply(src, path string, e c19Edit) (out string, edited *syntax.Ast, count int, inconsistent string, err error) {
 	defer func() {
 		if p := recover(); p != nil {
 			err = fmt.Errorf("PANIC: %v", p)
@@ -105,23 +154,92 @@ func c19Apply(src, path string, e c19Edit) (out string, edited *syntax.Ast, coun
 	var parser syntax.Parser
 	_, _, ast, err := parser.ParseSourceBytes([]byte(src), path, []string{filepath.Dir(path)}, false)
 	if err != nil {
-		return "", nil, 0, fmt.Errorf("precompile: %w", err)
+		return "", nil, 0, "", fmt.Errorf("precompile: %w", err)
 	}
 	edit, err := refactoring.Refactor([]*syntax.Ast{ast}, e.config())
 	if err != nil {
-		return "", nil, 0, fmt.Errorf("refactor: %w", err)
+		return "", nil, 0, "", fmt.Errorf("refactor: %w", err)
+	}
+	// Refactor applies rename edits to the compiled AST as it goes, because later
+	// steps of the same call read its lookup tables: they must still describe it.
+	if strings.HasPrefix(e.Op, "rename") {
+		inconsistent = c19TablesConsistent(ast)
 	}
 	plain, err := parser.UncheckedParse([]byte(src), path)
 	if err != nil {
-		return "", nil, 0, fmt.Errorf("reparse: %w", err)
+		return "", nil, 0, inconsistent, fmt.Errorf("reparse: %w", err)
 	}
 	if edit != nil {
 		count, err = edit.Apply(plain)
 		if err != nil {
-			return "", plain, count, fmt.Errorf("apply: %w", err)
+			return "", plain, count, inconsistent, fmt.Errorf("apply: %w", err)
 		}
 	}
-	return plain.Format(), plain, count, nil
+	return plain.Format(), plain, count, inconsistent, nil
+}
+
+// c19TablesConsistent checks the lookup tables of a compiled AST against its
+// lists: every callable / call / parameter / binding is found under its own
+// current name.  Returns "" or the first discrepancy.
+func c19TablesConsistent(ast *syntax.Ast) string {
+	for _, c := range ast.Callables.List {
+		if ast.Callables.Table[c.GetId()] != c {
+			return fmt.Sprintf("Ast.Callables.Table[%q] is not the callable of that name", c.GetId())
+		}
+		if ins := c.GetInParams(); ins != nil && ins.Table != nil {
+			for _, p := range ins.List {
+				if ins.Table[p.Id] != p {
+					return fmt.Sprintf("%s: InParams.Table[%q] is not that parameter", c.GetId(), p.Id)
+				}
+			}
+		}
+		if outs := c.GetOutParams(); outs != nil && outs.Table != nil {
+			for _, p := range outs.List {
+				if outs.Table[p.Id] != p {
+					return fmt.Sprintf("%s: OutParams.Table[%q] is not that parameter", c.GetId(), p.Id)
+				}
+			}
+		}
+	}
+	binds := func(where string, b *syntax.BindStms) string {
+		if b == nil || b.Table == nil {
+			return ""
+		}
+		for _, s := range b.List {
+			if s.Id == "*" {
+				continue
+			}
+			if b.Table[s.Id] != s {
+				return fmt.Sprintf("%s: Bindings.Table[%q] is not the binding of that name", where, s.Id)
+			}
+		}
+		return ""
+	}
+	for _, p := range ast.Pipelines {
+		for _, c := range p.Calls {
+			if p.Callables != nil && p.Callables.Table != nil {
+				if t := p.Callables.Table[c.Id]; t == nil {
+					return fmt.Sprintf("pipeline %s: Callables.Table has no entry for call id %q", p.Id, c.Id)
+				} else if t.GetId() != c.DecId {
+					return fmt.Sprintf("pipeline %s: Callables.Table[%q] is %s, the call invokes %s", p.Id, c.Id, t.GetId(), c.DecId)
+				}
+			}
+			if m := binds("pipeline "+p.Id+" call "+c.Id, c.Bindings); m != "" {
+				return m
+			}
+		}
+		if p.Ret != nil {
+			if m := binds("pipeline "+p.Id+" return", p.Ret.Bindings); m != "" {
+				return m
+			}
+		}
+	}
+	if ast.Call != nil {
+		if m := binds("top-level call", ast.Call.Bindings); m != "" {
+			return m
+		}
+	}
+	return ""
 }
 
 // ---- call graph dump -------------------------------------------------------
